@@ -11,7 +11,7 @@ import ast
 
 from ..framework import RuleResult, Finding, CONTROL_REL
 from ..effects import flat, flags_of
-from ..model import const_value
+from ..model import const_value, dotted, src_of
 
 # Documented exceptions, one symbol each.
 EXEMPT_SUBJECTS = {
@@ -260,4 +260,104 @@ def rule_operator_pure(ctx):
             ))
         else:
             r.ok(label, sample={"operator": label, "operands": f.posparams[:2], "effect": "none reaches the operands"})
+    return r
+
+
+# ------------------------------------------------------------- axis-by-label
+REDUCERS = {"sum", "mean", "max", "min", "prod", "take", "trace", "argmax", "argmin", "any", "all", "norm", "count_nonzero",
+            "cumsum", "squeeze", "amax", "amin", "nansum", "std", "var", "diagonal", "multiply_diagonal", "concatenate"}
+ELEMENTWISE = {"conj", "real", "imag", "abs", "sqrt", "exp", "log", "astype", "asarray", "copy", "to_numpy", "square"}
+
+
+def rule_axis_by_label(ctx):
+    r = RuleResult(
+        "axis-by-label",
+        "a reduction / selection along an axis of an array taken directly from a stored tensor (t.data, possibly "
+        "through elementwise maps) must obtain the axis from the tensor's labels (inds.index(...)): a literal or "
+        "ndim-derived axis silently assumes one storage order (results then depend on how a tensor happens to "
+        "store its axes)",
+    )
+    n_lab = 0
+    for g in ctx.prog.all_functions(nested=False):
+        if g.is_alias or isinstance(g.node, ast.Lambda) or not g.module.name.startswith("quimb.tensor"):
+            continue
+        if g.module.name.startswith(("quimb.tensor.decomp", "quimb.tensor.array_ops", "quimb.tensor.contraction", "quimb.tensor.optimize",
+                                     "quimb.tensor.drawing", "quimb.tensor.fitting", "quimb.tensor.belief_propagation", "quimb.tensor.circuit")):
+            continue  # array-level code: arrays there have a fixed, locally established layout
+        defs = {}
+        for n in ast.walk(g.node):
+            if isinstance(n, ast.Assign) and len(n.targets) == 1 and isinstance(n.targets[0], ast.Name):
+                defs.setdefault(n.targets[0].id, []).append(n.value)
+
+        def is_data(e, depth=0):
+            """expression is tensor data in stored axis order"""
+            if depth > 4:
+                return False
+            if isinstance(e, ast.Attribute) and e.attr in ("data", "_data"):
+                # data of a tensor that was explicitly transposed to a known order is fine
+                base = e.value
+                if isinstance(base, ast.Call) and isinstance(base.func, ast.Attribute) and base.func.attr.startswith(("transpose", "fuse", "to_dense")):
+                    return False
+                if isinstance(base, ast.Name) and any(isinstance(d, ast.Call) and isinstance(d.func, ast.Attribute) and d.func.attr.startswith(("transpose", "fuse", "contract")) for d in defs.get(base.id, [])):
+                    return False
+                return True
+            if isinstance(e, ast.Name):
+                return any(is_data(d, depth + 1) for d in defs.get(e.id, []))
+            if isinstance(e, ast.BinOp):
+                return is_data(e.left, depth + 1) or is_data(e.right, depth + 1)
+            if isinstance(e, ast.Call):
+                fn = (dotted(e.func) or "").split(".")[-1]
+                args = list(e.args)
+                if fn == "do" and args and isinstance(args[0], ast.Constant):
+                    fn = str(args[0].value)
+                    args = args[1:]
+                if fn in ELEMENTWISE and args:
+                    return is_data(args[0], depth + 1)
+                if isinstance(e.func, ast.Attribute) and e.func.attr in ELEMENTWISE:
+                    return is_data(e.func.value, depth + 1)
+            return False
+
+        def labelled(e, depth=0):
+            """axis expression derived from a label lookup"""
+            if depth > 4:
+                return False
+            for x in ast.walk(e):
+                if isinstance(x, ast.Call) and isinstance(x.func, ast.Attribute) and x.func.attr == "index":
+                    return True
+                if isinstance(x, ast.Name) and x.id in defs and any(labelled(d, depth + 1) for d in defs[x.id]):
+                    return True
+                if isinstance(x, ast.Name) and x.id in g.params and x.id.startswith(("axis", "ax")):
+                    return True  # the caller supplies the axis together with the matching label bookkeeping
+            return False
+
+        for c in ast.walk(g.node):
+            if not isinstance(c, ast.Call):
+                continue
+            fn = (dotted(c.func) or "")
+            base = fn.split(".")[-1]
+            args = list(c.args)
+            if base == "do" and args and isinstance(args[0], ast.Constant):
+                base = str(args[0].value).split(".")[-1]
+                args = args[1:]
+            if base not in REDUCERS:
+                continue
+            axis = next((k.value for k in c.keywords if k.arg in ("axis", "axes")), None)
+            if axis is None:
+                continue
+            target = args[0] if args else (c.func.value if isinstance(c.func, ast.Attribute) else None)
+            if isinstance(target, (ast.Tuple, ast.List)) and target.elts:
+                target = target.elts[0]
+            if target is None or not is_data(target):
+                continue
+            construct = f"{g.qualname}:{base}"
+            if labelled(axis):
+                n_lab += 1
+                r.ok(construct, sample={"function": g.qualname, "operation": src_of(c)[:70], "axis": "from inds.index(...)"})
+            else:
+                r.bad(Finding(
+                    "axis-by-label", g.qualname,
+                    f"`{src_of(c)[:70]}` (line {c.lineno}) reduces stored tensor data along axis `{src_of(axis)}`, which is not derived from a label "
+                    f"lookup: the result depends on the order in which the tensor stores its axes",
+                    where=f"{g.module.relpath}:{c.lineno}", operand=base))
+    r.floor(n_lab, 2, "label-derived axis uses on tensor data")
     return r
